@@ -45,7 +45,8 @@ def _values(rng, kind, n):
         pool = gen.FLOAT_SMALL + gen.FLOAT_HOSTILE + [1e-10, 123456789.123, 1e17, -1e-5]
         vals = [rng.choice(pool) for _ in range(n)]
         return [None if rng.random() < 0.2 else v for v in vals]
-    if kind == "str":
+    if kind in ("str", "ustr"):
+        # (the same hostile strings whether the column is the library's string type or a NumPy fixed-width one)
         pool = gen.STR_SHORT + WIDE + MULTI + ["q" * 60, 'say "hi"', ""]
         return [None if rng.random() < 0.15 else rng.choice(pool) for _ in range(n)]
     if kind == "obj":
